@@ -1,4 +1,5 @@
 import AfqmcVerif.Lemmas.SingleDet
+import Mathlib.LinearAlgebra.Matrix.Charpoly.Coeff
 import Mathlib.Tactic.FieldSimp
 import Mathlib.Tactic.Ring
 
@@ -61,5 +62,23 @@ theorem noci_force_bias_is_mixed_expectation {nd : ℕ} (H : Ham m g K) (c : Fin
   have h1 := (h d).1
   have h2 := (h d).2
   field_simp
+
+open Polynomial in
+/-- **the force bias is the logarithmic derivative of the overlap along `1 + r·O`** — as a statement about the
+function of `r`, with the remainder written out: for every `r`,
+`⟨ψ|(1 + rO)φ⟩ = ⟨ψ|φ⟩ · (1 + r·tr((CᴴW)⁻¹ CᴴOW) + r²·Q(r))` with `Q` a polynomial. -/
+theorem overlap_along_generator (C W : Matrix (Fin m) (Fin k) K) (O : Matrix (Fin m) (Fin m) K)
+    (h : ovlp C W ≠ 0) (r : K) :
+    ovlp C ((1 + r • O) * W)
+      = ovlp C W * (1 + ((Cᴴ * W)⁻¹ * (Cᴴ * O * W)).trace * r
+          + (det (1 + (X : K[X]) • ((Cᴴ * W)⁻¹ * (Cᴴ * O * W)).map Polynomial.C)).divX.divX.eval r * r ^ 2) := by
+  have hu : IsUnit (Cᴴ * W).det := isUnit_iff_ne_zero.2 h
+  unfold ovlp
+  have e : Cᴴ * ((1 + r • O) * W) = (Cᴴ * W) * (1 + r • ((Cᴴ * W)⁻¹ * (Cᴴ * O * W))) := by
+    rw [Matrix.mul_add, Matrix.mul_one, Matrix.mul_smul, ← Matrix.mul_assoc (Cᴴ * W), Matrix.mul_nonsing_inv _ hu,
+      Matrix.one_mul, Matrix.add_mul, Matrix.one_mul, Matrix.mul_add, Matrix.smul_mul, Matrix.mul_smul,
+      Matrix.mul_assoc]
+  rw [e, Matrix.det_mul, Matrix.det_one_add_smul]
+
 
 end AfqmcVerif.Props.C03
